@@ -78,6 +78,7 @@ FOURTH_ROUND_MISSES = {
 }
 SIXTH_ROUND_MISSES = {
  "C06-16": "missed: no matrix had entries below the routine's own 1e-9 threshold next to large ones -> `light_overlap`: heavy dyadic permutations plus two or three permutations of weight 2^-30 that share cells (the shared cells reach 1e-9, the others do not)",
+ "C18-17": "missed: the closest distinct valuations differed by 1e-17 absolutely next to large ones, never by a few ulps relatively -> rows of neighbouring doubles (1 .. 2^22 ulps apart) and of integers above 2^24 that differ by one, ascending with the column half of the time",
 }
 FIFTH_ROUND_MISSES = {
  "C01-13": "missed: the largest market had 170 residents -> one market with 258..400 residents per batch in which nearly everybody applies to the same small hospital first (`popular_market`)",
